@@ -95,6 +95,10 @@ class ServiceAccessPoint(object):
             if len(self.sock_list) == 0:
                 # completely remove this sap
                 self.llc.sap[self.addr] = None
+                # and the service name(s) that were bound to it
+                for name in [name for name, addr in self.llc.snl.items()
+                             if addr == self.addr]:
+                    del self.llc.snl[name]
 
     def send(self, send_pdu):
         self.send_list.append(send_pdu)
